@@ -146,8 +146,7 @@ def part_size(L, tier, log):
 
 # ------------------------------------------------------------------------------------------------ part W
 
-def send_site(L, log, name, fn_pat, co_ty, upvars, max_polls=4):
-    """Poll a send coroutine to completion. Returns list of (state, final Poll value)."""
+def site_contracts(max_polls):
     def c_settings(ex, st, key, argv, dest_ty, raw):
         def ap(ex, st, a):
             k = st.world["poll"]
@@ -222,6 +221,14 @@ def send_site(L, log, name, fn_pat, co_ty, upvars, max_polls=4):
             return ex.make_enum(dest_ty, "Some", [ex.make_enum(SE, "ConnectionError", [Obj("ConnectionErrorIncoming")])])
         return [Case(None, none), Case(z3.BoolVal(True), some)]
 
+    def c_header_response(ex, st, key, argv, dest_ty, raw):
+        def ap(ex, st, a):
+            # a status that reaches Header::response as a named constant (not through an http::Response) is remembered
+            if "StatusCode::" in str(getattr(a[0], "name", "")):
+                st.world["status"] = a[0]
+            return Obj(dest_ty or "proto::headers::Header")
+        return [Case(None, ap)]
+
     def c_header_request(ex, st, key, argv, dest_ty, raw):
         def ok(ex, st, a):
             return ex.make_enum(dest_ty, "Ok", [Obj("proto::headers::Header")])
@@ -239,20 +246,31 @@ def send_site(L, log, name, fn_pat, co_ty, upvars, max_polls=4):
         (r"PollFn as .*Future::poll$", c_poll3("open_poll")),
         (r"check_peer_connection_closing$", c_closing),
         (r"^Header::request$", c_header_request),
-        (r"^Header::response$|^Header::trailer$|into_parts$|^BytesMut::new$|^BytesMut::freeze$|^futures_util::future::poll_fn$|^poll_fn$", C.c_opaque),
+        (r"^Header::response$", c_header_response),
+        (r"^Header::trailer$|into_parts$|^BytesMut::new$|^BytesMut::freeze$|^futures_util::future::poll_fn$|^poll_fn$|^HeaderMap::new$", C.c_opaque),
         (r"handle_connection_error_on_stream$", c_conn_error),
         (r"handle_quic_stream_error$", c_stream_error),
         (r"^connection::RequestStream::new$|^FrameStream::new$|^BufRecvStream::new$|^Arc as Clone::clone$", C.c_opaque),
         (r"ToString::to_string$", C.c_opaque),
     ] + c08.base_contracts()
-    ex = E.make_executor(L, [], con, max_unroll=3)
-    # the limit is read through `(*settings).max_field_section_size`: find the field index in config::Settings from the MIR
+    return con
+
+
+def limit_field_index(ex, fn_pat, name):
     fn = ex.find_fn(fn_pat)
     text = "\n".join(s_ for b in fn.blocks.values() for s_ in b.stmts)
     m = re.search(r"\(\(\*_\d+\)\.(\d+): u64\)", text)
     if not m:
         raise Inconclusive(f"{name}: cannot find the read of Settings::max_field_section_size")
-    idx = int(m.group(1))
+    return int(m.group(1))
+
+
+def send_site(L, log, name, fn_pat, co_ty, upvars, max_polls=4):
+    """Poll a send coroutine to completion. Returns list of (state, final Poll value)."""
+    con = site_contracts(max_polls)
+    ex = E.make_executor(L, [], con, max_unroll=3)
+    # the limit is read through `(*settings).max_field_section_size`: find the field index in config::Settings from the MIR
+    idx = limit_field_index(ex, fn_pat, name)
     st = State()
     st.world.update({"poll": 0, "limits_read": [], "size": None, "limit_idx": idx})
     co = Obj(co_ty, z3.BitVecVal(0, 32))
@@ -367,31 +385,10 @@ def part_sites(L, tier, log):
 # ------------------------------------------------------------------------------------------------ part R
 
 def part_431(L, tier, log):
-    def c_send_response(ex, st, key, argv, dest_ty, raw):
-        def ap(ex, st, a):
-            st.effects.append(("send_response", a[1]))
-            return Obj("{async fn body of send_response()}")
-        return [Case(None, ap)]
-
-    def c_poll(ex, st, key, argv, dest_ty, raw):
-        inner = C.payload_type(dest_ty, "Ready") or "std::result::Result<(), error::error::StreamError>"
-
-        def pend(ex, st, a):
-            return ex.make_enum(dest_ty, "Pending")
-
-        def ok(ex, st, a):
-            st.effects.append(("sent", True))
-            return ex.make_enum(dest_ty, "Ready", [ex.make_enum(inner, "Ok", [UNIT])])
-
-        def err(ex, st, a):
-            st.effects.append(("sent", False))
-            e = Obj(SE)
-            e.attrs["from_send_response"] = True
-            return ex.make_enum(dest_ty, "Ready", [ex.make_enum(inner, "Err", [e])])
-        cases = [Case(None, ok), Case(z3.BoolVal(True), err)]
-        if st.world["poll"] < 1:
-            cases.append(Case(z3.BoolVal(True), pend))
-        return cases
+    """resolve() on an oversized request, with everything it calls to answer executed from its real MIR (send_response or
+    whatever helper the code uses is NOT abstracted): the contracts are those of the send sites (peer limit per poll, encoded
+    size, stream::write)."""
+    max_polls = 3
 
     def c_status(ex, st, key, argv, dest_ty, raw):
         def ap(ex, st, a):
@@ -399,12 +396,11 @@ def part_431(L, tier, log):
             return Obj("http::response::Builder")
         return [Case(None, ap)]
     con = [
-        (r"RequestStream::send_response$", c_send_response),
-        (r"async fn body of .*send_response.* as .*Future::poll$", c_poll),
         (r"^http::response::Builder::status$", c_status),
-        (r"^Response::builder$|^http::response::Builder::body$|^Result::expect$", C.c_opaque),
-    ] + c08.base_contracts()
-    ex = E.make_executor(L, [], con)
+        (r"^Response::builder$|^http::response::Builder::body$|^Result::expect$|^Response::new$|status_mut$", C.c_opaque),
+        (r" as IntoFuture::into_future$", C.c_identity),
+    ] + site_contracts(max_polls)
+    ex = E.make_executor(L, [], con, max_unroll=3)
     st = State()
     size = z3.BitVec("cancel_size", 64)
     mx = z3.BitVec("server_limit", 64)
@@ -413,7 +409,8 @@ def part_431(L, tier, log):
     rr.fields[(None, 2)] = Cell(mx)
     co = Obj("{async fn body of server::request::ResolvedRequest<C, B>::resolve()}", z3.BitVecVal(0, 32))
     co.fields[(None, 0)] = Cell(rr)
-    st.world.update({"poll": 0, "co": Cell(co)})
+    idx = limit_field_index(ex, r"^server::stream::<impl[^>]*>::send_response::\{closure#0\}$", "send_response")
+    st.world.update({"poll": 0, "co": Cell(co), "limits_read": [], "size": None, "limit_idx": idx})
     finals = []
 
     def go(st):
@@ -422,39 +419,68 @@ def part_431(L, tier, log):
         E.call(ex, st, r"^server::request::<impl[^>]*>::resolve::\{closure#0\}$", [pin, Ref(Cell(Obj("Context")))])
         for s, ret in E.collect(ex, st):
             if ret != ("panic",) and ret.discr.as_long() == 1:
+                if s.world["poll"] + 1 >= max_polls:
+                    raise Inconclusive("resolve: still pending after %d polls" % max_polls)
                 s.world["poll"] += 1
                 go(s)
             else:
                 finals.append((s, ret))
     go(st)
     viols = []
-    wit = {"R.431_sent_then_header_too_big": False, "R.431_failed": False}
+    wit = {"R.431_sent_then_header_too_big": False, "R.431_withheld_because_over_client_limit": False, "R.431_write_failed": False}
+    q = 0
     for s, ret in finals:
         if ret == ("panic",):
             viols.append({"key": "c10.recv.resolve_oversize.panic", "what": "resolve can panic on an oversized request", "model": {}})
             continue
         res = E.get_field(ret, ("Ready", 0))
-        sr = [e for e in s.effects if e[0] == "send_response"]
+        writes = [e for e in s.effects if e[0] == "write"]
         stc = s.world.get("status")
-        if len(sr) != 1 or stc is None or "REQUEST_HEADER_FIELDS_TOO_LARGE" not in str(getattr(stc, "name", stc)):
-            viols.append({"key": "c10.recv.resolve_oversize.no_431", "what": "an oversized request is not answered with exactly one 431 response", "model": {"status": str(stc)}})
+        rsize = s.world.get("size")
         if res.discr.as_long() == 0:
             viols.append({"key": "c10.recv.resolve_oversize.accepted", "what": "an oversized request is handed to the application", "model": {}})
             continue
+        if any(e[0] == "connection_error" for e in s.effects) and rsize is not None:
+            viols.append({"key": "c10.recv.resolve_oversize.connection_error", "what": "an oversized request raises a connection error", "model": {}})
         err = E.get_field(res, ("Err", 0))
-        sent = [e for e in s.effects if e[0] == "sent"]
-        if sent and sent[-1][1] is False:
-            wit["R.431_failed"] = True
-            continue
         kind = ex.enums.name_of(SE, err.discr.as_long()) if z3.is_bv_value(err.discr) else None
-        a = E.get_field(err, ("HeaderTooBig", 0)) if kind == "HeaderTooBig" else None
-        m_ = E.get_field(err, ("HeaderTooBig", 1)) if kind == "HeaderTooBig" else None
-        if kind != "HeaderTooBig" or ex.feasible(s, z3.Or(a != size, m_ != mx)):
-            viols.append({"key": "c10.recv.resolve_oversize.wrong_outcome", "what": "an oversized request does not end in HeaderTooBig{actual_size: decoded size, max_size: configured limit}", "model": {"kind": kind}})
+        if writes:
+            # the answer went out: it must be the 431 and must respect the client's limit in force at that poll
+            if stc is None or "REQUEST_HEADER_FIELDS_TOO_LARGE" not in str(getattr(stc, "name", stc)) or len(writes) != 1:
+                viols.append({"key": "c10.recv.resolve_oversize.no_431", "what": "the answer to an oversized request is not exactly one 431 response", "model": {"status": str(stc)}})
+            wpoll = writes[0][1]
+            lim_now = z3.BitVec(f"peer_limit_at_poll_{wpoll}", 64)
+            q += 1
+            m = ex.model(s, z3.UGT(rsize, lim_now)) if rsize is not None else None
+            if rsize is None or m is not None:
+                viols.append({"key": "c10.recv.resolve_oversize.answer_exceeds_client_limit",
+                              "what": "the 431 answer to an oversized request is sent although its own field section exceeds the limit the client has advertised",
+                              "model": {} if m is None else {"answer_size": m.eval(rsize, True).as_long(), "client_limit": m.eval(lim_now, True).as_long()}})
+            wp = [e for e in s.effects if e[0] == "write_poll"]
+            if wp and wp[-1][1] == "ok":
+                a = E.get_field(err, ("HeaderTooBig", 0)) if kind == "HeaderTooBig" else None
+                m_ = E.get_field(err, ("HeaderTooBig", 1)) if kind == "HeaderTooBig" else None
+                q += 1
+                if kind != "HeaderTooBig" or ex.feasible(s, z3.Or(a != size, m_ != mx)):
+                    viols.append({"key": "c10.recv.resolve_oversize.wrong_outcome",
+                                  "what": "after the 431 was sent the call does not end in HeaderTooBig{actual_size: decoded size, max_size: configured limit}", "model": {"kind": kind}})
+                else:
+                    wit["R.431_sent_then_header_too_big"] = True
+            else:
+                wit["R.431_write_failed"] = True
         else:
-            wit["R.431_sent_then_header_too_big"] = True
-    log(f"R resolve(oversized): {len(finals)} paths")
-    return ex, viols, len(finals), ex.queries, wit
+            # nothing written: only legitimate when the 431 itself would exceed the client's limit (or encoding failed)
+            if rsize is not None:
+                reads = s.world["limits_read"]
+                q += 1
+                if not reads or ex.feasible(s, z3.ULE(rsize, reads[-1][1])):
+                    viols.append({"key": "c10.recv.resolve_oversize.no_431", "what": "an oversized request is not answered with a 431 although the answer fits the client's limit", "model": {}})
+                elif kind != "HeaderTooBig":
+                    viols.append({"key": "c10.recv.resolve_oversize.wrong_outcome", "what": "a withheld 431 does not end in a header-too-big outcome", "model": {"kind": kind}})
+                else:
+                    wit["R.431_withheld_because_over_client_limit"] = True
+    log(f"R resolve(oversized): {len(finals)} paths, callees executed from their MIR: {sorted(n.split('::')[-2] + '::' + n.split('::')[-1] for n in ex.auto_inlined)[:6]}")
+    return ex, viols, len(finals), q + ex.queries, wit
 
 
 def check(L, tier, log, samples):
@@ -476,4 +502,6 @@ def replay_args(v):
     k = v["key"]
     if k.startswith("c10.send.send_request.oversized_section_sent"):
         return ("c10_stale_limit", [])
+    if k.startswith("c10.recv.resolve_oversize."):
+        return ("c10_431_respects_client_limit", [])
     return None
